@@ -400,7 +400,8 @@ def check(ctx):
     cov.update(bee.vacuity(agg))
     return {"level": LEVEL, "coverage": cov,
             "assumptions": ["clang ASan+UBSan report every memory-safety / undefined-behaviour fault they instrument",
-                            "a run that needs more than 60 s for an input of a few hundred bytes is a hang"]}
+                            "a run that exceeds 10 s and then 60 s (quick tier: 30 s; halved again once the worker has confirmed a hang) for an input of a few "
+                            "hundred bytes is a hang"]}
 
 
 def replay(path):
